@@ -665,6 +665,9 @@ fn respelled(tree: &vsim::clisim::types::Tree, a: &Inv) -> Option<Inv> {
     let mut b = a.clone();
     match &a.shape {
         Shape::Files { mode, paths } => {
+            if paths.len() > 2000 {
+                return None; // (absolute spellings of a 65 600-path list exceed the argument limit)
+            }
             let mut out = Vec::new();
             for p in paths {
                 if p == "/dev/stdin" {
